@@ -35,6 +35,7 @@
 #include "newlines/remove.h"
 #include "newlines/sparens.h"
 #include "newlines/squeeze.h"
+#include "options_for_QT.h"
 #include "output.h"
 #include "parens.h"
 #include "parent_for_pp.h"
@@ -2634,6 +2635,12 @@ void uncrustify_end()
    cpd.preproc_ncnl_count                     = 0;
    cpd.ifdef_over_whole_file                  = 0;
    cpd.warned_unable_string_replace_tab_chars = false;
+
+   if (QT_SIGNAL_SLOT_found)
+   {
+      // a SIGNAL( or SLOT( that is not closed in this file
+      restore_options_for_QT();
+   }
 #ifdef UNC_VERIF
    verif::st().in_output = false;
    verif::file_event("FileEnd", cpd.filename.c_str());
